@@ -149,3 +149,56 @@ func VerifC10IntQuoted(signed, neg bool, nd int, tail string) {
 	}
 	vrt.Assert("C10/intQ/accepted-exact", err == nil && got == want)
 }
+
+type zz10F32Q struct {
+	V float32 `json:"v,string"`
+}
+
+// VerifC10Float32Range: out-of-range values are refused precisely at the bounds of the
+// destination type for float32 too: a table of concrete literals around MaxFloat32 (floats are
+// concrete: digit parsing is strconv's), with solver-chosen sign and solver-chosen route
+// (bare number into float32, into a struct field, quoted through the `string` tag). The
+// literal is refused iff its magnitude rounds beyond MaxFloat32; accepted values are stored
+// with exactly the float32 bits strconv assigns.
+func VerifC10Float32Range() {
+	type row struct {
+		lit     string
+		inRange bool
+	}
+	table := []row{
+		{"3.4028235e38", true}, {"3.4028234e38", true}, {"340282346638528859811704183484516925440", true},
+		{"340282356779733661637539395458142568447", true}, // just below the rounding boundary
+		{"340282356779733661637539395458142568448", false},
+		{"3.5e38", false}, {"1e39", false}, {"1e300", false}, {"1.5", true}, {"1e-50", true},
+	}
+	r := table[vrt.Choice("row", len(table))]
+	lit := r.lit
+	if vrt.Bool("neg") {
+		lit = "-" + lit
+	}
+	var got float32
+	var err error
+	switch vrt.Choice("route", 3) {
+	case 0:
+		err = Unmarshal([]byte(lit), &got)
+	case 1:
+		var s struct {
+			V float32 `json:"v"`
+		}
+		err = Unmarshal([]byte(`{"v":`+lit+`}`), &s)
+		got = s.V
+	default:
+		var s zz10F32Q
+		err = Unmarshal([]byte(`{"v":"`+lit+`"}`), &s)
+		got = s.V
+	}
+	vrt.Observe("errnil", err == nil)
+	if !r.inRange {
+		vrt.Cover("refused")
+		vrt.Assert("C10/float32/out-of-range-refused", err != nil)
+		return
+	}
+	vrt.Cover("accepted")
+	vrt.Assert("C10/float32/in-range-accepted", err == nil)
+	vrt.Assert("C10/float32/finite", !math.IsInf(float64(got), 0))
+}
